@@ -74,8 +74,11 @@ func VerifC17_ReservationHistory() {
 	if strict {
 		mode = ReservedOfferingModeStrict
 	}
+	// quick: 3 NodeClaims, 3 steps; thorough: 2 NodeClaims, 4 steps (3 x 4 does not finish; histories of any length are
+	// covered, as far as the manager's invariant goes, by VerifC17_ReservationStep)
+	nClaims := verifrt.Bound("claims", 3, 2)
 	var claims []*NodeClaim
-	for i := 0; i < 3; i++ {
+	for i := 0; i < nClaims; i++ {
 		claims = append(claims, &NodeClaim{reservationManager: rm, topology: &Topology{}, hostname: "host-" + strconv.Itoa(i), reservedOfferingMode: mode})
 	}
 	reqSets := []scheduling.Requirements{
@@ -96,7 +99,7 @@ func VerifC17_ReservationHistory() {
 	}
 	steps := verifrt.Bound("history", 3, 4)
 	for step := 0; step < steps; step++ {
-		c := claims[verifrt.Choice("claim", 0, 2)]
+		c := claims[verifrt.Choice("claim", 0, nClaims-1)]
 		k := verifrt.Choice("requirements", 0, 2)
 		before := map[string]int{"r-1": rm.RemainingCapacity(its[0].Offerings[0]), "r-2": rm.RemainingCapacity(its[0].Offerings[1])}
 		ofs, err := c.offeringsToReserve(ctx, its, reqSets[k])
